@@ -23,6 +23,7 @@ STACK_COLS = ["parent", "depth", "height", "num_kernels", "kernel_dur_sum", "ker
               "first_kernel_start", "last_kernel_end"]
 
 OPS: Dict[str, Callable[..., Any]] = {}
+NO_TRACE_NEEDED = {"load", "discover", "noop", "symtab_history", "write_trace", "update_rank", "read_trace", "disk"}
 
 
 def op(name: str):
@@ -230,6 +231,10 @@ def run_session(sess: Dict[str, Any], world_dir: str, emit: Callable[[Dict[str, 
         if fn is None:
             emit({"ev": "harness_error", "i": i, "where": "dispatch", "msg": f"unknown op {o['op']}"})
             return 3
+        if o["op"] not in NO_TRACE_NEEDED and state.trace is None:
+            # an earlier load failed: nothing to operate on (neither a violation nor a harness problem)
+            emit({"ev": "op_end", "i": i, "op": o["op"], "ok": None, "exc": "NoLoadedTrace", "skipped": True})
+            continue
         try:
             obs = fn(state, o, env)
             emit({"ev": "op_end", "i": i, "op": o["op"], "ok": True, "obs": obs})
